@@ -183,6 +183,14 @@ def judge(obs, cfg, mode, point, ref, got, stages, types, udir, all_chains=False
     started = {(x["tag"], x["iter"]) for x in got["recs"] if x["kind"] == "start"}
     signal_mode = mode in ("par-signal", "par-signal-parent")
     if any(i >= stage_end for (_t, i) in started):
+        total_iters = bounds[-1] if bounds else 0
+        if mode == "par-signal-parent" and stage_end < total_iters and len(done) == total_iters * cfg["n_chain"]:
+            # the signal was delivered to the parent during a stage that is not the last one, and the run nevertheless
+            # performed every iteration of every stage: the interrupt did not take effect late, it was lost
+            obs.violation(f"interrupt-lost:{mode}",
+                          f"SIGINT was delivered to the parent process during a non-final stage but all {total_iters} iterations of all "
+                          f"stages were run for every chain; {where}")
+            return
         if signal_mode:
             # a real signal is handled when the receiving process next runs Python code: on a loaded machine the parent can
             # be descheduled long enough for the workers to finish a short stage first. When the interrupt took effect is
